@@ -100,6 +100,10 @@ fn full_leaves() -> Vec<Expr> {
         var("X$"),
         var("N"),
         var("S$"),
+        // boundary magnitudes: a non-zero number below machine epsilon, and the largest power
+        // of ten (a 309-digit numeral): x / 0.5 overflows to infinity without dividing by zero
+        num(1e-17),
+        num(1e308),
     ]
 }
 
